@@ -41,7 +41,7 @@ verif_harness! {
     }
 }
 
-//@ harness name=des_leaf_gen_keys prop=C05,C20 tier=quick bits=64 mem=30 est=20 desc="L: utils::gen_keys(key) == FIPS 46-3 key schedule (PC1, 28-bit rotations by SHIFTS, PC2) for all 2^64 keys; multiply-and-mask PC2 carries its no-overflow obligations"
+//@ harness name=des_leaf_gen_keys prop=C05,C20 tier=quick bits=64 mem=30 est=15 desc="L: utils::gen_keys(key) == FIPS 46-3 key schedule (PC1, 28-bit rotations by SHIFTS, PC2) for all 2^64 keys; multiply-and-mask PC2 carries its no-overflow obligations"
 verif_harness! {
     name: des_leaf_gen_keys,
     bytes: 8,
@@ -99,7 +99,7 @@ fn oracle_f(r: u32, k48: u64) -> u32 {
     (uf_f::call((r as u64) << 32, k48 << 16) >> 32) as u32
 }
 
-//@ harness name=des_wire_enc prop=C05 tier=quick bits=128 stub=1 est=35 desc="W: Des::new(key).encrypt_block(b) == FIPS 46-3 encryption, all keys and blocks; real IP/FP/key schedule/round wiring, cipher function f uninterpreted (shared with the oracle)"
+//@ harness name=des_wire_enc prop=C05 tier=quick bits=128 stub=1 est=30 desc="W: Des::new(key).encrypt_block(b) == FIPS 46-3 encryption, all keys and blocks; real IP/FP/key schedule/round wiring, cipher function f uninterpreted (shared with the oracle)"
 verif_harness! {
     name: des_wire_enc,
     bytes: 16,
@@ -117,7 +117,7 @@ verif_harness! {
     }
 }
 
-//@ harness name=des_wire_dec prop=C05 tier=quick bits=128 stub=1 est=35 desc="W: Des::new(key).decrypt_block(b) == FIPS 46-3 decryption (reversed subkeys), all keys and blocks, f uninterpreted"
+//@ harness name=des_wire_dec prop=C05 tier=quick bits=128 stub=1 est=25 desc="W: Des::new(key).decrypt_block(b) == FIPS 46-3 decryption (reversed subkeys), all keys and blocks, f uninterpreted"
 verif_harness! {
     name: des_wire_dec,
     bytes: 16,
@@ -246,7 +246,7 @@ tdes_wire!(tdes_eee2_wire, TdesEee2, 16, |k, x| ue(kp(k, 0), ue(kp(k, 1), ue(kp(
 //       of the instance they are called on -- which is exactly what (1) establishes about them.  Decides the composition
 //       order of decryption against encryption and which instance is used where.
 
-//@ harness name=des_state_roundtrip prop=C01,C20 tier=quick bits=1088 stub=1 est=45 desc="W: single DES on an arbitrary subkey array: decrypt(encrypt(x)) == x and encrypt(decrypt(x)) == x for all blocks (real IP/FP/round wiring and subkey order, f uninterpreted)"
+//@ harness name=des_state_roundtrip prop=C01,C20 tier=quick bits=1088 stub=1 est=35 desc="W: single DES on an arbitrary subkey array: decrypt(encrypt(x)) == x and encrypt(decrypt(x)) == x for all blocks (real IP/FP/round wiring and subkey order, f uninterpreted)"
 verif_harness! {
     name: des_state_roundtrip,
     bytes: 128 + 8,
@@ -383,7 +383,7 @@ tdes_roundtrip!(tdes_eee2_roundtrip, TdesEee2 { d1, d2 }, 2);
 
 // ---------------------------------------------------------------- key relations (real code on both sides)
 
-//@ harness name=tdes_ede3_equal_parts_is_des prop=C05 tier=quick bits=128 stub=1 est=55 desc="TdesEde3 with all three parts equal computes single Des with that key (both directions), all keys and blocks; real key schedules; single DES on a subkey array an uninterpreted keyed bijection pair on both sides (justified by des_state_roundtrip)"
+//@ harness name=tdes_ede3_equal_parts_is_des prop=C05 tier=quick bits=128 stub=1 est=40 desc="TdesEde3 with all three parts equal computes single Des with that key (both directions), all keys and blocks; real key schedules; single DES on a subkey array an uninterpreted keyed bijection pair on both sides (justified by des_state_roundtrip)"
 verif_harness! {
     name: tdes_ede3_equal_parts_is_des,
     bytes: 16,
@@ -413,7 +413,7 @@ verif_harness! {
     }
 }
 
-//@ harness name=des_complementation prop=C05 tier=quick bits=112 est=25 desc="complementation at the round level with the real round function: round(!x, !k) == !round(x, k) for all inputs and 48-bit subkeys (with gen_keys(!key) == !gen_keys(key) on the 48 key bits this gives Des(!k).enc(!p) == !Des(k).enc(p))"
+//@ harness name=des_complementation prop=C05 tier=quick bits=112 est=15 desc="complementation at the round level with the real round function: round(!x, !k) == !round(x, k) for all inputs and 48-bit subkeys (with gen_keys(!key) == !gen_keys(key) on the 48 key bits this gives Des(!k).enc(!p) == !Des(k).enc(p))"
 verif_harness! {
     name: des_complementation,
     bytes: 22,
